@@ -242,7 +242,6 @@ func renderText(t tabular.Table, nd namedDeco) (string, error) {
 	return texttable.Wrap(t).SetDecoration(nd.d).Render()
 }
 
-
 func c03Check(c *Ctx, spec *gen.TableSpec, decos []namedDeco, st *stage, sample bool) {
 	t0 := tabular.New()
 	reused := texttable.Wrap(t0)
